@@ -2,6 +2,14 @@
 
 package feed
 
+import "servitor/pub"
+
 // read-only accessors for the monitors
 func (f *Feed) VerifIndex() int        { return f.index }
 func (f *Feed) VerifBounds() (int, int) { return f.lowerBound, f.upperBound }
+
+// VerifItem returns the item at an absolute position (0 = the opened item of a thread page)
+func (f *Feed) VerifItem(pos int) (pub.Tangible, bool) {
+	t, ok := f.feed[pos]
+	return t, ok
+}
